@@ -96,6 +96,19 @@ class Step(VC):
                 # leaving the status for good makes a second return impossible (C05: Executed / Rejected are final for Execute / Close)
                 p1p, p1 = focus_post(ctx, f)
                 ob.require("C15.return_happens_together_with_a_final_status", status_is(ctx, p1, "Executed" if v == "Execute" else "Rejected"))
+                # a call that returns a deposit must leave a trace in the proposal's record: if the stored proposal is unchanged, the
+                # very same call would succeed again and return the deposit a second time
+                if n_extra == 1:
+                    ob.require("C15.a_returned_deposit_is_recorded", znot(zand(zeq(p0p, p1p), spec_eq(ctx, p0, p1))))
+                # chain: once an earlier call on this proposal has returned the deposit, no later call returns it again
+                f1 = getattr(f, "first", None)
+                if f1 is not None and getattr(f1, "on_focus", False):
+                    out1 = msgs_of(f1.resp)
+                    p00 = slot_map(f1.pre["proposals"])[(f.pid,)][1]
+                    want1 = list(lazy_forced(ctx, p00.get("msgs")).items) if f1.variant == "Execute" else []
+                    first_returned = (len(out1) - len(want1)) == 1
+                    if first_returned:
+                        ob.require("C15.deposit_returned_at_most_once_across_calls", n_extra == 0)
                 ob.witness("returned_on_" + v, n_extra == 1)
         elif v == "Vote":
             ob.require("C15.votes_move_no_deposit", len(out) == 0)
@@ -134,6 +147,7 @@ class Recoverable(VC):
 
 def vcs(tier):
     out = [Step(v) for v in ("Propose", "Vote", "Execute", "Close")] + [Recoverable()]
+    if tier != "thorough": out.append(Step("Close", after="Close"))          # a second Close never pays again
     # two-call chains on one proposal (thorough): the second call is judged on the state the first really left behind
     if tier == "thorough":
         CHV = ("Vote", "Execute", "Close")
